@@ -82,16 +82,24 @@ pub fn run_opts(definition: &str, query: &str, files: &[Vec<u8>], display_option
 /// text contents -> bytes
 pub fn b(s: &str) -> Vec<u8> { s.as_bytes().to_vec() }
 
-pub struct Grid { name: &'static str, only: Option<String>, pub cases: usize, pub fails: usize }
+pub struct Grid { name: &'static str, only: Option<String>, pub cases: usize, pub fails: usize, stride: usize, seen: std::collections::HashMap<String, usize>, pub skipped: usize }
 impl Grid {
     pub fn new(name: &'static str) -> Grid {
         std::panic::set_hook(Box::new(|_| {}));
         println!();
-        Grid { name, only: std::env::var("VERIF_GRID_ONLY").ok().filter(|s| !s.is_empty()), cases: 0, fails: 0 }
+        // VERIF_GRID_STRIDE=k (quick tier): of every family of cases (the case id without its digits) the first four and then every k-th
+        let stride = std::env::var("VERIF_GRID_STRIDE").ok().and_then(|s| s.parse::<usize>().ok()).filter(|k| *k >= 1).unwrap_or(1);
+        Grid { name, only: std::env::var("VERIF_GRID_ONLY").ok().filter(|s| !s.is_empty()), cases: 0, fails: 0, stride, seen: std::collections::HashMap::new(), skipped: 0 }
     }
     /// one case: `f` returns Err(description) when the property's statement does not hold for this input
     pub fn case<F: FnOnce() -> Result<(), String> + std::panic::UnwindSafe>(&mut self, id: &str, f: F) {
         if let Some(only) = &self.only { if only != id { return; } }
+        else if self.stride > 1 {
+            let family: String = id.chars().filter(|c| !c.is_ascii_digit()).collect();
+            let n = self.seen.entry(family).or_insert(0);
+            *n += 1;
+            if *n > 4 && *n % self.stride != 0 { self.skipped += 1; return; }
+        }
         self.cases += 1;
         let r = match std::panic::catch_unwind(f) { Ok(r) => r, Err(e) => Err(format!("panic: {}", panic_text(e))) };
         if let Err(msg) = r {
@@ -101,7 +109,7 @@ impl Grid {
             }
         }
     }
-    pub fn done(self) { println!("GRID-DONE grid={} cases={} fails={}", self.name, self.cases, self.fails); }
+    pub fn done(self) { println!("GRID-DONE grid={} cases={} fails={} skipped={}", self.name, self.cases, self.fails, self.skipped); }
 }
 
 pub fn show(bytes: &[u8]) -> String { format!("{:?}", String::from_utf8_lossy(bytes)) }
